@@ -5,6 +5,17 @@ matter) and recorded py-mode mcmc_sampler runs.
 The pedigrees are the records printed by PedigreeSampler.tla (DumpPeds); the arrays are
 built from them exactly as `mchap call-pedigree` lays them out: genotypes padded with -1 to
 the maximum ploidy, reads padded to the largest read count with count 0 / NaN rows.
+
+A task may carry a `layout`: for every individual the list of read slots, each entry the
+index of one of its model read rows or -1 for an unused slot (count 0, NaN).  The model's
+read set is a bag (PedigreeSampler!ReadOrderIrrelevant, ZeroCountNeutral), so every layout
+of the same pedigree has the same kernels.  Model rows with count 0 are laid out as masked
+reads (count 0, real probabilities).
+
+Shared likelihood cache: `cached_walk` (py-mode) evaluates the kernels of a sequence of
+joint states with ONE cache dictionary shared by all individuals, moves and states, as
+mcmc_sampler shares it; `sampler_trace` records, for every update of a real mcmc_sampler
+run, the probability vector the update drew from (computed with the sampler's own cache).
 """
 import math
 
@@ -24,7 +35,7 @@ def fl(x):
 
 
 class PedArrays:
-    def __init__(self, ped):
+    def __init__(self, ped, layout=None):
         self.ped = ped
         n = ped["n"]
         self.n = n
@@ -37,11 +48,19 @@ class PedArrays:
         self.err = np.array([[fl(x) for x in pq] for pq in ped["err"]], dtype=np.float64)
         self.haps = np.array(ped["haps"], dtype=np.int8)
         npos = self.haps.shape[1]
-        nr = max(1, max(len(r) for r in ped["reads"]))
+        if layout is None:
+            layout = [list(range(len(rs))) for rs in ped["reads"]]
+        for i, sl in enumerate(layout):
+            if sorted(x for x in sl if x >= 0) != list(range(len(ped["reads"][i]))):
+                raise ValueError("layout of individual %d is not a permutation of its read rows" % (i + 1))
+        nr = max(1, max(len(sl) for sl in layout))
         self.dists = np.full((n, nr, npos, 2), np.nan, dtype=np.float64)
         self.counts = np.zeros((n, nr), dtype=np.int64)
-        for i, rs in enumerate(ped["reads"]):
-            for m, r in enumerate(rs):
+        for i, sl in enumerate(layout):
+            for m, x in enumerate(sl):
+                if x < 0:
+                    continue
+                r = ped["reads"][i][x]
                 self.counts[i, m] = r["n"]
                 for j, c in enumerate(r["c"]):
                     if c >= 0:
@@ -71,11 +90,17 @@ class PedArrays:
 _peds = {}
 
 
-def get_ped(ped):
-    k = ped["name"]
+def get_ped(ped, layout=None):
+    k = (ped["name"], repr(layout))
     if k not in _peds:
-        _peds[k] = PedArrays(ped)
+        _peds[k] = PedArrays(ped, layout)
     return _peds[k]
+
+
+def micro(v):
+    """float probability -> round(10^6 v) (-1 for NaN: no proposal)"""
+    v = float(v)
+    return -1 if math.isnan(v) else int(round(v * 1e6))
 
 
 def vec(a):
@@ -108,7 +133,7 @@ def run(task):
                 "blankets": [[int(x) + 1 for x in r if x >= 0] for r in A.blankets],
                 "children": [[int(x) + 1 for x in r if x >= 0] for r in A.children]}
     if op == "allele_kernels":
-        A = get_ped(task["ped"])
+        A = get_ped(task["ped"], task.get("layout"))
         out = []
         for s in task["states"]:
             g = A.genotypes(s)
@@ -123,7 +148,7 @@ def run(task):
         return out
     if op == "swap_py":
         # every (pair, ip, iq) of every state with the index draws forced
-        A = get_ped(task["ped"])
+        A = get_ped(task["ped"], task.get("layout"))
         out = []
         for s in task["states"]:
             rows = []
@@ -152,39 +177,124 @@ def run(task):
                 rows.append({"p": int(A.pairs[j, 0]) + 1, "q": int(A.pairs[j, 1]) + 1, "prob": float(pr)})
             out.append(rows)
         return out
+    if op == "cached_walk":
+        return cached_walk(task)
     if op == "sampler_trace":
         return sampler_trace(task)
     raise ValueError(op)
 
 
+def cached_walk(task):
+    """py-mode: the kernels of a sequence of joint states with one likelihood cache shared by
+    every individual, move type and state (the way mcmc_sampler shares it).  The individuals
+    are visited in ascending order in one state and descending order in the next, so that a
+    lower-ploidy sample is evaluated after a higher-ploidy one and vice versa."""
+    A = get_ped(task["ped"], task.get("layout"))
+    cache = {}
+    out = []
+    for num, s in enumerate(task["states"]):
+        g = A.genotypes(s)
+        g0 = g.copy()
+        order = list(range(A.n))
+        if (num + task.get("flip", 0)) % 2:
+            order.reverse()
+        rows = []
+        for i in order:
+            for k in range(int(A.ploidy[i])):
+                gb = M.gibbs_probabilities(i, k, *A.kernel_args(g, cache))
+                mh = M.metropolis_hastings_probabilities(i, k, *A.kernel_args(g, cache))
+                gb0 = M.gibbs_probabilities(i, k, *A.kernel_args(g.copy(), None))
+                mh0 = M.metropolis_hastings_probabilities(i, k, *A.kernel_args(g.copy(), None))
+                rows.append({"i": i + 1, "k": k + 1, "gibbs": vec(gb), "mh": vec(mh), "gibbs0": vec(gb0), "mh0": vec(mh0)})
+        restored = bool((g == g0).all())
+        swaps = []
+        for j in range(len(A.pairs)):
+            p, q = int(A.pairs[j, 0]), int(A.pairs[j, 1])
+            for ip in range(int(A.ploidy[p])):
+                for iq in range(int(A.ploidy[q])):
+                    g = A.genotypes(s)
+                    with ForcedDraws([ip, iq], 0.5):
+                        pr, acc = M.pair_allele_swap_step(*A.swap_args(j, g, cache))
+                    g1 = A.genotypes(s)
+                    with ForcedDraws([ip, iq], 0.5):
+                        pr0, _ = M.pair_allele_swap_step(*A.swap_args(j, g1, None))
+                    swaps.append({"p": p + 1, "q": q + 1, "ip": ip + 1, "iq": iq + 1, "prob": float(pr),
+                                  "prob0": float(pr0), "accept": bool(acc),
+                                  "after": [[int(a) for a in g[i, : int(A.ploidy[i])]] for i in range(A.n)]})
+        out.append({"rows": rows, "restored": restored, "swaps": swaps})
+    return out
+
+
 def sampler_trace(task):
     """py-mode: run mcmc_sampler with recorders on allele_step / pair_allele_swap_step."""
-    A = get_ped(task["ped"])
+    A = get_ped(task["ped"], task.get("layout"))
     np.random.seed(task["seed"])
     ev = []
+    rows_on = bool(task.get("rows"))
     orig_allele, orig_swap = M.allele_step, M.pair_allele_swap_step
+    orig_gibbs, orig_mh = M.gibbs_probabilities, M.metropolis_hastings_probabilities
+    pending = []
 
     import inspect
 
     sig_allele = inspect.signature(orig_allele)
     sig_swap = inspect.signature(orig_swap)
 
+    def rec_kernel(orig, kind):
+        # the vector allele_step draws from, computed with the sampler's own shared cache,
+        # and the same call without a cache
+        sig = inspect.signature(orig)
+
+        def f(*a, **k):
+            r = orig(*a, **k)
+            b = dict(sig.bind(*a, **k).arguments)
+            r0 = orig(**dict(b, sample_genotypes=b["sample_genotypes"].copy(), llk_cache=None))
+            pending.append({"kind": kind, "pr": [micro(x) for x in r], "pr0": [micro(x) for x in r0]})
+            return r
+
+        return f
+
     def rec_allele(*a, **k):
+        del pending[:]
         r = orig_allele(*a, **k)
         b = sig_allele.bind(*a, **k).arguments
-        ev.append({"op": "allele", "i": int(b["target_index"]) + 1, "k": int(b["allele_index"]) + 1,
-                   "b": int(b["sample_genotypes"][b["target_index"], b["allele_index"]])})
+        e = {"op": "allele", "i": int(b["target_index"]) + 1, "k": int(b["allele_index"]) + 1,
+             "b": int(b["sample_genotypes"][b["target_index"], b["allele_index"]])}
+        if rows_on and len(pending) == 1:
+            e.update(pending[0])
+        ev.append(e)
         return r
 
     def rec_swap(*a, **k):
-        r = orig_swap(*a, **k)
-        b = sig_swap.bind(*a, **k).arguments
-        p, q, g, pl = int(b["p"]), int(b["q"]), b["sample_genotypes"], b["sample_ploidy"]
-        ev.append({"op": "swap", "p": p + 1, "q": q + 1,
-                   "xp": [int(x) for x in g[p, : pl[p]]], "xq": [int(x) for x in g[q, : pl[q]]]})
+        b = dict(sig_swap.bind(*a, **k).arguments)
+        g = b["sample_genotypes"]
+        before = g.copy()
+        draws = []
+        real_randint = np.random.randint
+
+        def spy(*aa, **kk):
+            draws.append(int(real_randint(*aa, **kk)))
+            return draws[-1]
+
+        np.random.randint = spy
+        try:
+            r = orig_swap(*a, **k)
+        finally:
+            np.random.randint = real_randint
+        p, q, pl = int(b["p"]), int(b["q"]), b["sample_ploidy"]
+        e = {"op": "swap", "p": p + 1, "q": q + 1,
+             "xp": [int(x) for x in g[p, : pl[p]]], "xq": [int(x) for x in g[q, : pl[q]]]}
+        if rows_on and len(draws) == 2:
+            with ForcedDraws(draws, 0.5):
+                r0 = orig_swap(**dict(b, sample_genotypes=before, llk_cache=None))
+            e.update({"ip": draws[0] + 1, "iq": draws[1] + 1, "acc": micro(r[0]), "acc0": micro(r0[0])})
+        ev.append(e)
         return r
 
     M.allele_step, M.pair_allele_swap_step = rec_allele, rec_swap
+    if rows_on:
+        M.gibbs_probabilities = rec_kernel(orig_gibbs, "gibbs")
+        M.metropolis_hastings_probabilities = rec_kernel(orig_mh, "mh")
     try:
         g = A.genotypes(task["start"])
         ev.append({"op": "start", "ped": task["ped"]["name"], "s": task["start"], "swap": bool(task["swap"])})
@@ -205,6 +315,7 @@ def sampler_trace(task):
             M.compound_step = orig_compound
     finally:
         M.allele_step, M.pair_allele_swap_step = orig_allele, orig_swap
+        M.gibbs_probabilities, M.metropolis_hastings_probabilities = orig_gibbs, orig_mh
     # interleave the recorded rows: one "record" after the events of each iteration
     out = []
     it = -1
